@@ -301,7 +301,7 @@ def cut_to_order(H, order):
         raise XGIError(f"The order must be less than or equal to {max_order}")
     if order != max_order:
         bunch = _H.edges.filterby("order", order, "gt")
-        if type(_H) == SimplicialComplex:
+        if isinstance(_H, SimplicialComplex):
             _H.remove_simplex_ids_from(bunch)
         else:
             _H.remove_edges_from(bunch)
